@@ -9,6 +9,19 @@ FIELD = {"length": "length", "spec": "spec", "version": "version", "notify": "no
          "body_format": "bodyFormat", "ec": "ec"}
 
 
+def sum_form_strict(expr):
+    """Form of a sum of declared lengths.  Anything that can wrap silently or mixes forms is read as `unchecked`
+    (the pessimistic form: it panics with overflow checks and wraps without)."""
+    e = " ".join(expr.split())
+    has_plus = re.search(r"[\w\)]\s\+\s[\w\(]", e) is not None
+    if "wrapping_add" in e or "overflowing_add" in e or "unchecked_add" in e: return "unchecked"
+    if "checked_add" in e and not has_plus and "saturating_add" not in e: return "checked"
+    if "saturating_add" in e and not has_plus and "checked_add" not in e: return "saturating"
+    if has_plus and "checked_add" not in e and "saturating_add" not in e: return "unchecked"
+    if has_plus: return "unchecked"
+    raise ExtractError(f"unrecognised sum form: {e}")
+
+
 def extract():
     facts, where = {}, {}
     consts = strip(read("src/constants.rs"))
@@ -35,7 +48,12 @@ def extract():
             if int(re.fullmatch(r"o \+= (\d+);", st).group(1)) != enc[-1][1]:
                 raise ExtractError(f"encode: offset step {st} after {enc[-1]}")
         elif st in ("let mut buf = [0u8; HEADER_SIZE];", "let mut o = 0;", "buf"): pass
-        else: raise ExtractError(f"encode: unrecognised statement `{st}`")
+        else:
+            # a statement that moves a header field in a form not recognised (big-endian, masked, conditional …) is the
+            # danger itself: record the field with width 0 so that the layout is not the specification's
+            mf = re.search(r"self\.(\w+)", st)
+            if mf and mf.group(1) in FIELD: enc.append((mf.group(1), 0))
+            else: raise ExtractError(f"encode: unrecognised statement `{st}`")
     # ---- decode
     dec, sumf = [], None
     body = fn_body(imp, "decode")
@@ -48,22 +66,22 @@ def extract():
         elif m1: dec.append((m1.group(1), 1))
     me = re.search(r"let expected\s*=([^;]*);", body)
     if not me: raise ExtractError("decode: `let expected = …` not found")
-    sumf = sum_form(me.group(1))
+    sumf = sum_form_strict(me.group(1))
     for lay, nm in ((enc, "encode"), (dec, "decode")):
         for f, w in lay:
             if f not in FIELD: raise ExtractError(f"{nm}: unknown field {f}")
             if f in types and int(types[f][1:]) != 8 * w: raise ExtractError(f"{nm}: field {f} is {types[f]} but {w} bytes are moved")
-    # order of checks in decode: length test, spec test, sum test
-    pos = [body.find("input.len() < HEADER_SIZE"), body.find("spec != REPE_SPEC"), body.find("let expected")]
-    if -1 in pos or pos != sorted(pos): raise ExtractError("decode: check order (len, spec, sum) not recognised")
+    # (the order and form of the checks in decode are the fact `decodeChecks`, see shapes())
     facts["encodeLayout"], facts["decodeLayout"], facts["headerSumForm"] = enc, dec, sumf
 
     msg = test_mod_cut(strip(read("src/message.rs")))
     def expected_form(impl_re):
         b = fn_body(impl_block(msg, impl_re), "from_slice")
         m = re.search(r"let expected\s*=([^;]*);", b)
-        if not m: raise ExtractError("from_slice: expected")
-        return sum_form(m.group(1))
+        # located, but the total is computed in another way (a helper, signed arithmetic …): the sum form stays the
+        # pessimistic `unchecked`, and shapes() reports the check it cannot recognise as `.unknown`
+        if not m: return "unchecked"
+        return sum_form_strict(m.group(1))
     facts["sliceSumForm"] = expected_form(r"impl Message\s*\{")
     facts["viewSumForm"] = expected_form(r"impl<'a> MessageView<'a>\s*\{")
 
@@ -82,16 +100,18 @@ def extract():
                     helpers += hb; nxt.append(hb)
             frontier = nxt
         fallible = "try_reserve" in b or "try_reserve" in helpers
-        infallible_direct = re.search(r"vec!\[0u8;\s*header\.", b) is not None
-        if infallible_direct and not fallible: alloc = "infallible"
-        elif fallible and not infallible_direct: alloc = "fallible"
-        elif into and "resize(" in b and not fallible: alloc = "infallible"
+        # `vec![0; declared]`, `Vec::with_capacity(declared)`, `reserve(declared)` (infallible) anywhere in the reader
+        infallible_direct = re.search(r"vec!\[\s*0u8\s*;\s*(?:header\.|total|\w*len)|with_capacity\(\s*(?:header\.|total)|\.reserve(?:_exact)?\(", b) is not None
+        # the fallible reservation must cover every declared-length buffer: the owned readers make two
+        n_alloc = len(re.findall(r"zeroed_vec\(|reserve_declared\(|try_reserve", b))
+        if infallible_direct: alloc = "infallible"          # one infallible allocation is enough to abort: pessimistic
+        elif fallible and n_alloc >= (1 if into else 2): alloc = "fallible"
+        elif "resize(" in b or "vec!" in b: alloc = "infallible"
         else: raise ExtractError(f"{fn}: allocation form not recognised")
         tform = None
         if into:
             m = re.search(r"let total\s*=([^;]*);", b)
-            if not m: raise ExtractError(f"{fn}: total")
-            tform = sum_form(m.group(1))
+            tform = sum_form_strict(m.group(1)) if m else "unchecked"   # shapes() flags the unrecognised statement
         return alloc, tform
     facts["readAlloc"], _ = reader("src/io.rs", "read_message", False)
     facts["readIntoAlloc"], facts["readIntoSumForm"] = reader("src/io.rs", "read_message_into", True)
@@ -301,7 +321,7 @@ def shapes(facts):
         want = ["body.resize(total, 0);", "if body_len > 0 { body.copy_within(0..body_len, prefix_len); }",
                 "body[..HEADER_SIZE].copy_from_slice(&header.encode());",
                 "if !query.is_empty() { body[HEADER_SIZE..prefix_len].copy_from_slice(&query); }", "body"]
-        ok = [" ".join(x.split()) for x in st[:-1]] == head and cmp_norm(pi[0]) == (">=", "body.capacity()", "total") and inplace == want
+        ok = [" ".join(x.split()) for x in st[:-1]] == head and cmp_norm(pi[0]) in ((">=", "body.capacity()", "total"), ("<", "total", "body.capacity()")) and inplace == want
         return {"inPlaceShape": bool(ok), "freshBufferParts": parts_of(statements2(pi[2]), NEUTRAL)}
     group(facts, ["inPlaceShape", "freshBufferParts"], g_iwb)
 
@@ -401,10 +421,13 @@ def shapes(facts):
                     "buf.resize(total, 0);", "r.read_exact(&mut buf[HEADER_SIZE..total]).await?;", "Ok(())"]
         def loosen(xs):   # the sum/alloc forms are facts of their own: do not let a change there flip the shape fact too
             return [re.sub(r"let total = .*;", "let total = …;", x) for x in xs]
+        def rename_hdr(xs):   # the name of the local header buffer does not matter
+            m = re.fullmatch(r"let mut (\w+) = \[0u8; HEADER_SIZE\];", xs[0]) if xs else None
+            return [re.sub(r"\b" + m.group(1) + r"\b", "HDR", x) for x in xs] if m else xs
         rx = norm(fn_body(io_src, "read_exact"))
         rx_ok = len(rx) == 2 and rx[1] == "Ok(())" and re.fullmatch(
             r"while !buf\.is_empty\(\) \{ let n = r\.read\(buf\)\?; if n == 0 \{ return Err\(RepeError::Io\(std::io::Error::from\( std::io::ErrorKind::UnexpectedEof, \)\)\); \} let tmp = buf; buf = &mut tmp\[n\.\.\]; \}", rx[0]) is not None
-        return {"readShape": rd == rd_want, "asyncReadShape": ard == ard_want, "readIntoShape": loosen(ri) == loosen(ri_want),
+        return {"readShape": rename_hdr(rd) == rename_hdr(rd_want), "asyncReadShape": rename_hdr(ard) == rename_hdr(ard_want), "readIntoShape": loosen(ri) == loosen(ri_want),
                 "asyncReadIntoShape": loosen(ari) == loosen(ari_want), "readExactShape": bool(rx_ok)}
     group(facts, ["readShape", "asyncReadShape", "readIntoShape", "asyncReadIntoShape", "readExactShape"], g_readers)
 
